@@ -353,6 +353,11 @@ impl Property for C11 {
                             }
                         } else {
                             cx.count("inbound_probe_ok");
+                            // serving a transfer is not a change of roles: the table of minting rights is as it was
+                            ensure_p!(t.is_minter(&s.id) == svc_minter, "step {}: an inbound transfer changed the service's own entry in the token's table of minters ({} -> {})", step, svc_minter, t.is_minter(&s.id));
+                            for u in w.users.iter() {
+                                ensure_p!(t.is_minter(u) == (minter_addr.as_ref() == Some(u)), "step {}: an inbound transfer changed a pool member's minting right", step);
+                            }
                         }
                     }
                 }
@@ -550,6 +555,20 @@ impl Property for C11 {
                         for u in w.users.iter() {
                             ensure_p!(t.is_minter(u) == (minter_addr.as_ref() == Some(u)), "minting rights differ from the designated minter");
                             ensure_p!(t.balance(u) == 0, "remote-deployed token has a non-zero balance");
+                        }
+                        // an approved inbound transfer to the new token credits the recipient and leaves the roles alone
+                        msg_no += 1;
+                        let before = t.balance(&recipient);
+                        let tr = AMsg::Transfer { token_id: id, source: vec![1, 2, 3], dest: address_xdr(env, &recipient), amount: word_u128(5), data: vec![] };
+                        let p2 = ItsWorld::receive_payload("ethereum", &tr);
+                        let mid2 = format!("probe-{}", msg_no);
+                        w.approve_for(&s.id, HUB_CHAIN, &mid2, HUB_ADDR, &p2)?;
+                        env.set_auths(&[]);
+                        let r2 = s.client.try_execute(&sstr(env, HUB_CHAIN), &sstr(env, &mid2), &sstr(env, HUB_ADDR), &soroban_sdk::Bytes::from_slice(env, &p2));
+                        ensure_p!(matches!(r2, Ok(Ok(()))) && t.balance(&recipient) == before + 5, "step {}: approved inbound transfer to a token deployed by a remote deploy message did not credit the recipient: {:?}", step, r2);
+                        ensure_p!(t.is_minter(&s.id), "step {}: an inbound transfer took the service's own entry out of the token's table of minters", step);
+                        for u in w.users.iter() {
+                            ensure_p!(t.is_minter(u) == (minter_addr.as_ref() == Some(u)), "step {}: an inbound transfer changed a pool member's minting right", step);
                         }
                         svcs[si].reg.insert(id, Entry { addr, native: true });
                         svcs[si].order.push(id);
